@@ -38,6 +38,12 @@ class Repository(object):
     def __exit__(self, type_, value, tb):
         self.delete()
 
+    def __deepcopy__(self, memo):
+        # A Repository stands for one clone on disk: the copies of the objects
+        # that reference it (branches, queues, cascades) keep sharing it, and
+        # with it the record of the branches that were removed.
+        return self
+
     def reset(self):
         if self.tmp_directory:
             self.delete()
